@@ -183,6 +183,7 @@ func TestReplay(t *testing.T) {
 	}
 	n := 0
 	for _, f := range files {
+		fmt.Printf("REPLAYING file=%s\n", f)
 		sc, vs, err := replayFile(f)
 		if err != nil {
 			t.Errorf("replay %s: %v", f, err)
